@@ -1090,3 +1090,8 @@ B('NMO-slice-helper-direct', ['C05', 'C04'], 'index.py', 'Index._loc_to_iloc',
 N('NMO-element-two-tests', ['C05', 'C04'], 'index.py', 'Index._loc_to_iloc',
   '            if not (isinstance(key, INT_TYPES) and 0 <= key < size):\n                raise KeyError(key)\n            return key + offset',
   '            if not isinstance(key, INT_TYPES) or key < 0 or key >= size:\n                raise KeyError(key)\n            return key + offset')
+
+# ---------------------------------------------------------------------------------- lazy pairing of the label list (C18)
+B('PL-inline-single-thread-lazy-map', ['C18'], 'node_iter.py', 'IterNodeDelegate._apply_iter_items_parallel',
+  '        with pool_executor(max_workers=max_workers) as executor:', '        if use_threads and max_workers == 1:\n            yield from zip(func_keys, map(func, arg_gen()))\n            return\n        with pool_executor(max_workers=max_workers) as executor:',
+  'I.parallel-label-pairing', '_apply_iter_items_parallel')
